@@ -52,6 +52,18 @@ ToSMV(t, v) ==
       [] t.k = "array" -> Eager([e \in 1..t.cap |-> ToSMV(t.elem, v[e])])
       [] t.k = "msg" -> Eager([f \in 1..Len(t.fields) |-> ToSMV(t.fields[f].t, v[f])])
 
+(* BEYOND THE LISTED PROPERTIES: decoding into a target that already holds a value.  The Python runtime ORs   *)
+(* every decoded chunk into the field (x |= chunk << shift) and assigns only booleans, so what a leaf holds  *)
+(* afterwards is the bitwise OR of what it held and what the wire says (then sign-extended); D14 is the      *)
+(* instance of this that a listed property sees (the "old" value being a non-zero enum default).            *)
+RECURSIVE OntoV(_, _, _)
+OntoV(t, old, new) ==
+    CASE t.k = "bool" -> new
+      [] IsLeaf(t) -> Eager([b \in 1..Len(new) |-> IF old[b] = 1 \/ new[b] = 1 THEN 1 ELSE 0])
+      [] t.k = "alias" -> OntoV(t.to, old, new)
+      [] t.k = "array" -> Eager([e \in 1..t.cap |-> OntoV(t.elem, old[e], new[e])])
+      [] t.k = "msg" -> Eager([f \in 1..Len(t.fields) |-> OntoV(t.fields[f].t, old[f], new[f])])
+
 RECURSIVE AllInRange(_, _)
 AllInRange(t, x) ==
     CASE IsLeaf(t) -> InRange(t, x)
@@ -185,6 +197,12 @@ Check(tr, e) ==
                 THEN IF e.outcome = "IndexError" THEN "" ELSE "expected-read-outside-buffer"
                 ELSE IF e.outcome # "value" THEN "unexpected-" \o e.outcome
                 ELSE IF ToSMV(t, dv) # e.v THEN "value" ELSE ""
+      [] e.ev = "DecodeOnto" ->
+            \* informational: the target held e.old (in range) when decode(e.bytes) was called
+            LET w == BitsOf(e.bytes)
+                d == Dec(t, w, 0)
+                exp == OntoV(t, ToBitsV(t, e.old), d.v)
+            IN  IF ToSMV(t, exp) # e.v THEN "decode-onto" ELSE ""
       [] e.ev = "ReEncode" ->
             \* re-encoding the decoded message reproduces the bytes
             LET bv == ToBitsV(t, e.v)
